@@ -54,6 +54,19 @@ def bootstrap():
     warnings.simplefilter('ignore')
     import numpy as np
     np.seterr(all='ignore')
+    # import everything the cases will need once, here: each case runs in a freshly forked child, which would otherwise repeat
+    # the lazy imports (scipy.stats, scipy.optimize, plotly, mpmath ...) every time
+    import importlib
+    for name in ('scipy.stats', 'scipy.optimize', 'scipy.integrate', 'scipy.special', 'pandas', 'mpmath',
+                 'copulas.univariate', 'copulas.bivariate', 'copulas.bivariate.independence', 'copulas.multivariate',
+                 'copulas.multivariate.tree', 'copulas.multivariate.vine', 'copulas.optimize', 'copulas.datasets',
+                 'copulas.visualization', 'plotly.express', 'mc.seq', 'mc.seams', 'mc.zoo', 'mc.uni', 'mc.tables',
+                 'mc.quadrature', 'mc.ref.archimedean', 'mc.ref.archimedean_np', 'mc.ref.kendall', 'mc.ref.kde', 'mc.ref.mvn',
+                 'mc.ref.rvine', 'mc.ref.samplers', 'mc.boom'):
+        try:
+            importlib.import_module(name)
+        except Exception:
+            pass
 
 
 # ------------------------------------------------------------------------------------------------
